@@ -28,11 +28,12 @@ def rand_field(rng):
     return "x"
 
 
-def scan_safe(params):
+def scan_safe(params, lead_nl=False):
     """SafeDoc (DESIGN 3.2) on the emitted parameter sequence: no '#' inside a parameter is reached while the lexer's
     'last TEXT token ended in a line break' bit is set; no '///'; no '#' in a key. Over-strict is fine (domain filter)."""
-    last_nl = False
+    last_nl = lead_nl            # a text in front of the first parameter that ends in a line break sets the bit
     for comps in params:
+        if not comps: return False
         if "#" in comps[0]: return False
         for comp in comps:
             if "///" in comp: return False
